@@ -24,8 +24,8 @@ pub fn concrete_id(c: u8) -> ResourceId {
         1 => ResourceId::new_with_dynamic_id::<Cell0>(1),
         2 => ResourceId::new_with_dynamic_id::<Cell1>(0),
         3 => ResourceId::new_with_dynamic_id::<Cell1>(7),
-        4 => ResourceId::new_with_dynamic_id::<Cell0>(7),
-        _ => ResourceId::new_with_dynamic_id::<Cell1>(1),
+        4 => ResourceId::new_with_dynamic_id::<Cell0>(0x1_0000_0001),
+        _ => ResourceId::new_with_dynamic_id::<Cell1>(u64::MAX - 0xFF),
     }
 }
 pub fn is_cell0(c: u8) -> bool {
